@@ -5,8 +5,8 @@ gamma  builds the reference world of spec/Transform.tla!World (integer coordinat
        "shared-arrays" variant, hold ONE ndarray object as common boundary), a sign, a light, an area with two borders and one without, a static obstacle, dynamic
        obstacles with a KS trajectory (incl. an uncertain state), a point-mass trajectory (PMState: position + derived
        heading), an orientation-free CustomState trajectory, a set-based prediction (rect / circle / polygon / shape-group
-       occupancies) and an uncertain initial state, a phantom obstacle, two environment obstacles, two planning problems
-       with shape / lanelet / orientation-interval goal states - restricted to the obstacle roles of the case's role mix.
+       occupancies) and an uncertain initial state, a phantom obstacle, two environment obstacles, three planning problems (two of them with
+       separate but EQUAL goal regions) with shape / lanelet / orientation-interval goal states - restricted to the obstacle roles of the case's role mix.
 variants: cold / warm (exported geometry of every shape evaluated before the motion) and none / shared-arrays.
 alpha  snapshots every stored point and orientation before and after the call through PUBLIC accessors of primary data
        only (states, stored shapes, vertices; never occupancy queries on the object under test - that is C11).
@@ -281,8 +281,12 @@ def build(mix, alias="none"):
                          g.goal_state(g.circle(2, (-4, -8))),
                          g.goal_state(g.polygon([(-20, -10), (-16, -7), (-16, -10)]))], {1: [2]})
     goal32 = GoalRegion([g.goal_state(g.rect(2, 2, (-6, -6), 0.0))])
+    goal33 = GoalRegion([g.goal_state(g.rect(2, 2, (-6, -6), 0.0))])      # a separate object that compares (and hashes) equal
+    if not (goal32 == goal33 and hash(goal32) == hash(goal33) and goal32 is not goal33):
+        raise MachineryError("reference world: goal regions of planning problems 32 and 33 are expected to be equal")
     pps = g.planning_problem_set([PlanningProblem(31, g.init_state(0, 1, 0.0), goal31),
-                                  PlanningProblem(32, g.init_state(-3, -3, _th(0, -1)), goal32)])
+                                  PlanningProblem(32, g.init_state(-3, -3, _th(0, -1)), goal32),
+                                  PlanningProblem(33, g.init_state(-2, -5, _th(0, 1)), goal33)])
     return sc, pps, {}
 
 
